@@ -15,11 +15,11 @@ import (
 // reference runtime decoding the same bytes, not by this encoder.
 
 type varStats struct {
-	permuted, repacked, splitRun, dupScalar, splitMsg, mapSwapped, mapKeyOmitted, mapValOmitted, mapDupKey, unknown, oneofDup int
+	permuted, repacked, splitRun, dupScalar, splitMsg, mapSwapped, mapKeyOmitted, mapValOmitted, mapDupKey, mapExtra, unknown, oneofDup int
 }
 
 func (s *varStats) any() bool {
-	return s.permuted+s.repacked+s.splitRun+s.dupScalar+s.splitMsg+s.mapSwapped+s.mapKeyOmitted+s.mapValOmitted+s.mapDupKey+s.unknown+s.oneofDup > 0
+	return s.permuted+s.repacked+s.splitRun+s.dupScalar+s.splitMsg+s.mapSwapped+s.mapKeyOmitted+s.mapValOmitted+s.mapDupKey+s.mapExtra+s.unknown+s.oneofDup > 0
 }
 
 type varOpts struct {
@@ -143,7 +143,7 @@ func encodeVariant(t *rapid.T, m protoreflect.Message, o varOpts, st *varStats, 
 				}
 				shape := 0
 				if o.mapShape {
-					shape = rapid.SampledFrom([]int{0, 0, 0, 1, 1, 2, 3, 4}).Draw(t, "mapshape")
+					shape = rapid.SampledFrom([]int{0, 0, 0, 1, 1, 2, 3, 4, 5, 6}).Draw(t, "mapshape")
 				}
 				var entry []byte
 				switch shape {
@@ -158,6 +158,14 @@ func encodeVariant(t *rapid.T, m protoreflect.Message, o varOpts, st *varStats, 
 				case 3: // value omitted: the entry has the default value
 					entry = append(entry, keyPiece...)
 					st.mapValOmitted++
+				case 5: // an unknown field inside the entry (a conforming reader ignores it)
+					entry = append(append(entry, keyPiece...), refwire.AppendVarint(refwire.AppendKey(nil, 3, 0), 7)...)
+					entry = append(entry, valPiece...)
+					st.mapExtra++
+				case 6: // the key occurs twice inside the entry: the last one wins
+					entry = append(append(entry, fieldOcc(1, kfd.Kind(), genScalar(t, kfd))...), keyPiece...)
+					entry = append(entry, valPiece...)
+					st.mapExtra++
 				case 4: // an earlier entry with the same key and the default value
 					pieces = append(pieces, refwire.AppendLen(refwire.AppendKey(nil, num, 2), keyPiece))
 					entry = append(append(entry, keyPiece...), valPiece...)
